@@ -100,7 +100,14 @@ def jIp (ip : RouteIp) : Json :=
   let (neg, c) := match ip with
     | .inRange c => (false, c)
     | .notInRange c => (true, c)
-  Json.arr #[toJson neg, toJson c.v6, toJson c.base, toJson c.bits]
+  -- a 128-bit base travels as a decimal string
+  Json.arr #[toJson neg, toJson c.v6, if c.v6 then toJson (toString c.base) else toJson c.base, toJson c.bits]
+
+/-- A field whose input strings leave the declared scope of the stand-in parsers is not compared. -/
+def inScopeOr (inScope : Bool) (j : Json) : Json := if inScope then j else toJson "out-of-scope"
+
+def boundsInScope (f : String → Bool) (d : Option (List RangeSource)) : Bool :=
+  (d.getD []).all fun r => (r.1.map f).getD true && (r.2.map f).getD true
 
 def jRange (r : DRange) : Json := Json.arr #[jOpt toJson r.start, jOpt toJson r.stop]
 
@@ -113,9 +120,12 @@ def handle (j : Json) : Except String Json := do
     ("methods", jOpt toJson r.methods), ("exclude", jOpt toJson r.excludeMethods),
     ("host", jOpt jSod r.host), ("path", jSod r.path),
     ("headers", Json.arr (r.headers.map jHeader).toArray),
-    ("ips", jOpt (fun l => Json.arr (l.map jIp).toArray) r.ips),
-    ("datetime", jOpt (fun l => Json.arr (l.map jRange).toArray) r.datetime),
-    ("time", jOpt (fun l => Json.arr (l.map jRange).toArray) r.time),
+    ("ips", inScopeOr ((s.ips.getD []).all fun ip => Std.cidrInScope ip.range)
+      (jOpt (fun l => Json.arr (l.map jIp).toArray) r.ips)),
+    ("datetime", inScopeOr (boundsInScope Std.dateTimeInScope s.datetime)
+      (jOpt (fun l => Json.arr (l.map jRange).toArray) r.datetime)),
+    ("time", inScopeOr (boundsInScope Std.timeInScope s.time)
+      (jOpt (fun l => Json.arr (l.map jRange).toArray) r.time)),
     ("weekdays", jOpt toJson r.weekdays)]
   return Json.mkObj [("m", m)]
 
